@@ -137,7 +137,7 @@ fn check_outputs_server(a: &SAct, before: &ServerModel, outs: &[Out], epoch: u32
 
 fn short_m(m: &M) -> String {
     let s = format!("{:?}", m);
-    if s.len() > 140 { format!("{}...", &s[..140]) } else { s }
+    if s.chars().count() > 140 { format!("{}...", s.chars().take(140).collect::<String>()) } else { s }
 }
 
 fn act_kind_s(a: &SAct) -> &'static str {
